@@ -175,5 +175,23 @@ def attrAllLow : Nat → List Char → Res (List (List Char × List Char))
     | .err e => .err e
     | .panic => .panic
 
+/-- `Unquote::to_cow()` in any state of the iterator: `str::find` gives byte indices, `&str_ref[1..]` and
+`&body[..end]` panic off a character boundary -/
+def toCowLow (u : Uq) : Res (List Char) :=
+  if u.isQuoted then
+    if (findByte '\\' u.inner).isSome then .ok u.rest          -- `Cow::from(self.to_string())`: the iterator
+    else
+      let body : Res (List Char) := match u.state with
+        | .notStarted => sliceFrom u.inner 1                    -- &str_ref[1..]
+        | _ => .ok u.inner
+      match body with
+      | .ok b =>
+        match findByte '"' b with
+        | some e => sliceTo b e                                 -- &body[..end]
+        | none => .ok b
+      | .err e => .err e
+      | .panic => .panic
+  else .ok u.inner
+
 end LinkLow
 end CoapLite
